@@ -48,6 +48,9 @@ def gen_path(rng):
     """-> (expression, accepted?)"""
     def pred():
         q = rng.random()
+        if q < .08:
+            # a number literal, in both operand orders: not a string comparison, so not accepted
+            return rng.choice(["[@n=1]", "[1=@n]", "[2=@k]", "[@j=2]"])
         if q < .5:
             return "[@%s=%s]" % (rng.choice(["k", "k", "j", "p:k"]), rng.choice(["'1'", "'1'", '"2"', "'x'"]))
         if q < .65:
@@ -62,7 +65,7 @@ def gen_path(rng):
         k = rng.choice([3, 3, 4])
         out = ["[@%s='%s']" % (a, rng.choice(["1", "2", "x"])) for a in names[:k]]
         if rng.random() < .3:
-            out[rng.randrange(1, k - 1)] = rng.choice(["[2]", "[@j]", "[@k!='1']", "[1]"])
+            out[rng.randrange(1, k - 1)] = rng.choice(["[2]", "[@j]", "[@k!='1']", "[1]", "[1=@n]", "[@n=1]"])
         return "".join(out)
     steps = []
     for _ in range(rng.randint(1, 3)):
@@ -124,7 +127,47 @@ def classify(finding, case):
     return finding.get("cls") in case.get("classes", [])
 
 
-def witness_case(src, ctx_pos, expr, namespaces):
+AMBIENT = {
+    "default": (0, None),
+    "none": (1, ()),
+    "text": (2, (impl.is_text_node,)),
+    "comment": (3, (impl.is_comment_node,)),
+    "tag": (4, (impl.is_tag_node,)),
+}
+
+
+class ambient:
+    """the caller's ambient default filters around the calls of fetch_or_create_by_xpath"""
+    def __init__(self, name):
+        flt = AMBIENT[name][1]
+        self.cm = altered_default_filters(*flt) if flt is not None else None
+
+    def __enter__(self):
+        if self.cm is not None:
+            self.cm.__enter__()
+
+    def __exit__(self, *a):
+        if self.cm is not None:
+            return self.cm.__exit__(*a)
+
+
+def missing_steps(node, expr, namespaces):
+    """how many trailing steps of the path have no match yet (None if that cannot be decided)"""
+    absolute = expr.startswith("/")
+    steps = expr.lstrip("/").split("/")
+    deepest = 0
+    for i in range(1, len(steps) + 1):
+        try:
+            n = len(node.xpath(("/" if absolute else "") + "/".join(steps[:i]), namespaces=namespaces))
+        except Exception:       # noqa: BLE001
+            return None
+        if n == 0:
+            break
+        deepest = i
+    return len(steps) - deepest
+
+
+def witness_case(src, ctx_pos, expr, namespaces, amb="default"):
     """run one case on the implementation; returns the list of violated statements"""
     from _delb.xpath import parse
     from _delb.exceptions import AmbiguousTreeError, XPathEvaluationError, InvalidOperation
@@ -140,8 +183,10 @@ def witness_case(src, ctx_pos, expr, namespaces):
         pre_count = len(node.xpath(expr, namespaces=namespaces))
     except Exception:       # noqa: BLE001
         pre_count = None
+    missing = missing_steps(node, expr, namespaces) if acc else None
     try:
-        got = node.fetch_or_create_by_xpath(expr, namespaces=namespaces)
+        with ambient(amb):
+            got = node.fetch_or_create_by_xpath(expr, namespaces=namespaces)
         out = ("ok", got)
     except ValueError:
         out = ("rejected", "ValueError")
@@ -202,10 +247,14 @@ def witness_case(src, ctx_pos, expr, namespaces):
                     break
         if pre_count and pre_count == 1:
             bad.append("a node was added although the expression already selected one")
+        if missing is not None and len(new_nodes) != missing:
+            bad.append("what was added is not the missing part of the branch below the deepest existing match "
+                       "(%d elements added, %d steps missing)" % (len(new_nodes), missing))
     # idempotent
     snapshot = plain_to_tuple(xq.Tree(d.root).plain)
     try:
-        again = node.fetch_or_create_by_xpath(expr, namespaces=namespaces)
+        with ambient(amb):
+            again = node.fetch_or_create_by_xpath(expr, namespaces=namespaces)
         if again is not got:
             bad.append("a second call returns a different node")
     except Exception as ex:     # noqa: BLE001
@@ -239,15 +288,35 @@ def run(ctx, args):
             t0 = xq.Tree(d0.root)
             tags = [(p, n) for p, n, _ in t0.nodes if isinstance(n, TagNode)]
             pos, cnode = tags[0] if rng.random() < .7 else rng.choice(tags)
+            if rng.random() < .15 and len(tags) > 1:
+                # a path to an element that exists: names (and sometimes an attribute) of the way down from the context
+                tp, tn = rng.choice(tags[1:])
+                if tp[:len(pos)] == pos and len(tp) > len(pos):
+                    parts = []
+                    for i in range(len(pos) + 1, len(tp) + 1):
+                        n_ = t0.node_at(tp[:i])
+                        step = ("p:" if n_.namespace == P_NS else "") + n_.local_name
+                        if "k" in n_.attributes and rng.random() < .5 and n_.namespace != D_NS:
+                            step += "[@k='%s']" % n_.attributes["k"].value
+                        parts.append(step)
+                    if all(t0.node_at(tp[:i]).namespace in (None, "", P_NS) for i in range(len(pos) + 1, len(tp) + 1)):
+                        expr = "/".join(parts)
             try:
                 tup = xpath_ast.to_tuple(parse(expr))
             except Exception:       # noqa: BLE001
                 continue
             m_eval = xq.effective_nsmap(cnode, namespaces)
             m_create = create_map(cnode, namespaces)
-            bad, out, before, after, after_tree, acc = witness_case(src, pos, expr, namespaces)
-            small = {"doc": src, "ctx": list(pos), "expr": expr, "namespaces": namespaces}
-            classes = []
+            amb = rng.choice(["default"] * 6 + ["none", "text", "comment", "tag"])
+            bad, out, before, after, after_tree, acc = witness_case(src, pos, expr, namespaces, amb)
+            small = {"doc": src, "ctx": list(pos), "expr": expr, "namespaces": namespaces, "ambient": amb}
+            # the open finding concerns the creation walk; an expression that already selects a node is answered by the
+            # shielded first query whatever the ambient filter
+            try:
+                exists_already = len(d0.root.xpath("/" + "/".join("*[%d]" % (i + 1) for i in pos[1:]) if len(pos) > 1 else ".")[0].xpath(expr, namespaces=namespaces)) >= 1
+            except Exception:       # noqa: BLE001
+                exists_already = False
+            classes = ["ambient-filter-hides-tags"] if (amb in ("text", "comment") and not exists_already) else []
             if dict(m_eval).get("", "") or dict(m_create).get("", ""):
                 classes.append("default-namespace-in-effect")
             used = set()
@@ -281,12 +350,11 @@ def run(ctx, args):
                 classes.append("undeclared-prefix-after-creation")
             for b in bad:
                 ctx.fail(b, dict(small, classes=classes, outcome=out),
-                         classify if (b.startswith("an exception (XPathEvaluationError) left the tree changed")
-                                      or "empty-namespaces-mapping" in classes) else None)
+                         classify if ("ambient-filter-hides-tags" in classes) else None)
             ctx.sample(dict(small, outcome=out[0] + (":" + str(out[1]))))
             # ---- the model on the same case
             key = t0.coq()          # inlined: a preamble with one definition per case would be re-read by every file
-            terms.append("run_foc %s %s %s %s %s" % (key, xq.coq_nsmap([(k, v) for k, v in m_eval if k in ("", "p", "xml")]),
+            terms.append("run_foc_vis %d%%N %s %s %s %s %s" % (AMBIENT[amb][0], key, xq.coq_nsmap([(k, v) for k, v in m_eval if k in ("", "p", "xml")]),
                                                       xq.coq_nsmap([(k, v) for k, v in m_create if k in ("", "p", "xml")]),
                                                       xpath_ast.coq_ast(tup), xq.coq_pos(pos)))
             if out[0] == "ok":
@@ -305,7 +373,7 @@ def run(ctx, args):
     for f in ctx.findings:
         if f["status"] == "fixed":
             w = f["witness"]
-            bad, out, *_ = witness_case(w["doc"], w["ctx"], w["expr"], w.get("namespaces"))
+            bad, out, *_ = witness_case(w["doc"], w["ctx"], w["expr"], w.get("namespaces"), w.get("ambient", "default"))
             ctx.count(1, "fixed-finding-regression-case")
             for b in bad:
                 ctx.fail("regression of fixed finding %s: %s" % (f["id"], b), dict(w, outcome=str(out)))
@@ -320,7 +388,7 @@ def run(ctx, args):
 
 def replay_open(f):
     w = f["witness"]
-    bad, out, *_ = witness_case(w["doc"], w["ctx"], w["expr"], w.get("namespaces"))
+    bad, out, *_ = witness_case(w["doc"], w["ctx"], w["expr"], w.get("namespaces"), w.get("ambient", "default"))
     return bool(bad)
 
 
